@@ -221,7 +221,11 @@ fn run_case(line: &str) -> String {
     let head: HashMap<&str, &str> = parts[0].split(' ').filter_map(|t| t.split_once('=')).collect();
     let sndbuf: usize = head["sndbuf"].parse().unwrap();
     let pre: usize = head["pre"].parse().unwrap();
-    let (mut conn, peer_stream) = connect_pair(true);
+    // a failure to set the connection up (scratch directory wiped by someone else, fd limit) is not the send path's
+    let (mut conn, peer_stream) = match std::panic::catch_unwind(|| connect_pair(true)) {
+        Ok(p) => p,
+        Err(_) => return "SETUPFAIL".to_string(),
+    };
     let sfd = conn.send.as_raw_fd();
     if sndbuf > 0 {
         let b = unsafe { BorrowedFd::borrow_raw(sfd) };
